@@ -204,8 +204,9 @@ func (g *Graph) InstrReachable(p IPos) bool { return g.Reachable()[p.B] }
 
 // Avoid describes what a path may not pass.
 type Avoid struct {
-	Instrs map[ssa.Instruction]bool
-	Edges  map[Edge]bool
+	Instrs        map[ssa.Instruction]bool
+	Edges         map[Edge]bool
+	EdgeSensitive bool // fold branches on phis that are constant along the edge taken
 }
 
 func avoidInstrs(ins ...ssa.Instruction) Avoid {
@@ -270,20 +271,41 @@ func (g *Graph) PathExists(from, to IPos, av Avoid) (bool, []*ssa.BasicBlock) {
 	if blocked {
 		return false, nil
 	}
-	seen := map[*ssa.BasicBlock]bool{}
+	type key struct{ p, b *ssa.BasicBlock }
+	seen := map[key]bool{}
 	queue := []*st{start}
 	for len(queue) > 0 {
 		s := queue[0]
 		queue = queue[1:]
-		for _, e := range g.succs(s.b) {
+		succs := g.succs(s.b)
+		// edge-sensitive folding: a branch on a phi of this block whose incoming value along the edge
+		// just taken is a boolean constant follows only the matching successor (flag set before break)
+		if av.EdgeSensitive && s.prev != nil && len(s.b.Instrs) > 0 {
+			if ifi, ok := s.b.Instrs[len(s.b.Instrs)-1].(*ssa.If); ok {
+				if v, known := phiConstAlong(ifi.Cond, s.prev.b, s.b); known {
+					var keep []Edge
+					for _, e := range succs {
+						if (e.Succ == 0) == v {
+							keep = append(keep, e)
+						}
+					}
+					succs = keep
+				}
+			}
+		}
+		for _, e := range succs {
 			if av.Edges != nil && av.Edges[e] {
 				continue
 			}
 			t := e.To()
-			if seen[t] {
+			k := key{nil, t}
+			if av.EdgeSensitive {
+				k.p = s.b
+			}
+			if seen[k] {
 				continue
 			}
-			seen[t] = true
+			seen[k] = true
 			ns := &st{b: t, prev: s}
 			hit, blocked := scan(t, 0)
 			if hit {
